@@ -154,6 +154,8 @@ struct St {
 	bool all_clients_done = false;
 	int64_t shutdown_tick = -1;
 	int accept_policy[3] = { 0, 0, 0 };      // errno to refuse with, per client (0 accept)
+	int plant[3] = { 0, 0, 0 }, plantf[3] = { 0, 0, 0 };   // C05: a second process of the peer plants a file in the connection directory
+	std::set<std::string> planted; std::vector<std::string> victims;
 	int auth_set[3] = { 0, 0, 0 }; unsigned auth_uid[3], auth_gid[3], auth_mode[3];
 	bool faults_off = false, rate_reset = false;
 	uint64_t n_msgs_ok = 0;
@@ -166,7 +168,7 @@ static St *Gp;
 static int p_req_full, p_notify_deferred, p_fc_toggled, p_max_size_msg, p_backoff, p_early_req, p_early_out, p_emsgsize,
 	p_send_eagain, p_disc_in_msg, p_ref_outlives, p_closed_retry, p_destroy_alive, p_list_walk, p_client_died, p_server_died,
 	p_refused, p_auth_set, p_pollin_checked, p_sendv_recv, p_event_delivered, p_resp_delivered, p_req_delivered, p_kill_fired,
-	p_hostile_conn, p_drain_ok, p_deferred_window, p_owner_checked, p_client_cleanup_checked;
+	p_hostile_conn, p_drain_ok, p_deferred_window, p_owner_checked, p_client_cleanup_checked, p_planted;
 static bool g_avoid_deferred;
 
 extern "C" int use_filesystem_sockets(void);
@@ -204,6 +206,7 @@ static void init(const char *prop)
 	p_hostile_conn = counter_id("probe", "hostile_connections");
 	p_drain_ok = counter_id("probe", "final_drain_completed");
 	p_client_cleanup_checked = counter_id("probe", "client_cleanup_after_server_death_checked");
+	p_planted = counter_id("probe", "peer_planted_file_in_connection_directory");
 	p_owner_checked = counter_id("probe", "path_ownership_checked_after_connect");
 	p_deferred_window = counter_id("probe", "event_unread_while_notification_deferred");
 	{ const char *av = getenv("SIMK_AVOID"); g_avoid_deferred = av && strstr(av, "deferred-notify-window"); }
@@ -271,6 +274,40 @@ static void server_send(Conn &c, int dir, uint32_t len, bool use_iov)
 	}
 }
 
+// C05: the connection directory exists (and belongs to the peer) before the accept callback runs; while the callback
+// runs, another process of that peer may put something where the server is about to create a channel file
+static int client_of_path(const std::string &p);
+static void plant_file(Conn &c)
+{
+	std::string dir;
+	for (std::set<std::string>::iterator it = G.ledger_paths.begin(); it != G.ledger_paths.end(); ++it) {
+		struct stat st;
+		if (client_of_path(*it) == c.client && lstat(it->c_str(), &st) == 0 && S_ISDIR(st.st_mode)) dir = *it;
+	}
+	if (dir.empty()) return;
+	static const char *const CH[3] = { "request", "response", "event" };
+	int w = G.plantf[c.client] % 6;
+	std::string name = G.transport ? dir + "/qb-control-" + G.svc_name
+				       : dir + "/qb-" + CH[w / 2] + "-" + G.svc_name + (w % 2 ? "-data" : "-header");
+	if (G.plant[c.client] == 1) {
+		char v[300]; snprintf(v, sizeof v, "%s/victim-%d-%zu", scratch_dir(), c.client, G.victims.size());
+		int fd = open(v, O_CREAT | O_WRONLY | O_TRUNC, 0600);
+		if (fd < 0) return;
+		char fill[64]; memset(fill, 'V', sizeof fill);
+		if (write(fd, fill, sizeof fill) != (ssize_t)sizeof fill) {}
+		close(fd);
+		if (symlink(v, name.c_str()) != 0) { unlink(v); return; }
+		G.victims.push_back(v);
+	} else {
+		int fd = open(name.c_str(), O_CREAT | O_WRONLY | O_EXCL, 0666);
+		if (fd < 0) return;
+		fchmod(fd, 0666);
+		close(fd);
+	}
+	G.planted.insert(name);
+	count(p_planted);
+}
+
 static int32_t cb_accept(qb_ipcs_connection_t *sc, uid_t uid, gid_t gid)
 {
 	G.conns.push_back(Conn());
@@ -302,6 +339,7 @@ static int32_t cb_accept(qb_ipcs_connection_t *sc, uid_t uid, gid_t gid)
 		res = -G.accept_policy[c.client];
 	}
 	if (c.client < 0 && which == 6) res = 0;      // the hostile peer may be let in (it then abuses the raw channels)
+	if (which == 5 && c.client >= 0 && G.plant[c.client]) plant_file(c);
 	fire(T_ACCEPT, &c);
 	c.accept_ok = res == 0;
 	if (res != 0) { c.refused = -res; count(p_refused); }
@@ -1046,7 +1084,9 @@ static void check_modes(const char *when)
 		if (lstat(it->c_str(), &st) != 0) continue;
 		int k = client_of_path(*it);
 		unsigned allowed = k >= 0 && G.auth_set[k] ? G.auth_mode[k] : 0600;
-		if (S_ISDIR(st.st_mode)) {
+		if (S_ISLNK(st.st_mode)) {
+			VIOL(5, "connection-file-is-a-symlink", "qb_sys_mmap_file_open", "%s: a channel file of an accepted connection is a symbolic link planted by the peer (%s)", when, it->c_str() + 9);
+		} else if (S_ISDIR(st.st_mode)) {
 			if (st.st_mode & 0777 & ~0770u)
 				VIOL(5, "directory-too-permissive", "handle_new_connection", "%s: connection directory has mode %o (%s)", when, (unsigned)(st.st_mode & 0777), it->c_str() + 9);
 		} else if (st.st_mode & 0777 & ~allowed) {
@@ -1059,6 +1099,20 @@ static void on_call(uint32_t)
 {
 	if (which == 5 && cur_spid() == G.server_spid && !G.ledger_paths.empty()) check_modes("between two server system calls");
 }
+
+#ifdef IPC_ACC
+// ring-level interleaving inside the IPC world: ringbuffer.c is built with access instrumentation, every mapping of a
+// shared file is a region, so client and server also interleave (and can die) inside ring operations
+static void on_mmap(void *addr, size_t len, int prot, int flags, int fd)
+{
+	if (fd >= 0 && (flags & MAP_SHARED) && (prot & PROT_WRITE)) access_region_add(addr, len);
+}
+static void acc_hook(const void *, int, int, int, int, size_t)
+{
+	ShimCfg &c = shim_cfg();
+	if (c.kill_spid && cur_spid() == c.kill_spid && fault_here(F_KILL_BEFORE, c.rate_kill / 8, NULL, 0)) proc_die();
+}
+#endif
 
 static void on_proc_death(int spid)
 {
@@ -1269,6 +1323,11 @@ static void gen(const char *prop, RunSpec &spec)
 		} else p.add(0, K_S_STATS, T_TICK, -1, r.range(1, 30));
 	}
 	if (w == 5) {
+		for (int k = 0; k < nc; k++) if (r.chance(1, 4)) {
+			char key[24];
+			snprintf(key, sizeof key, "plant%d", k); p.set(key, r.range(1, 2));
+			snprintf(key, sizeof key, "plantf%d", k); p.set(key, r.below(6));
+		}
 		static const int64_t ERRS[] = { EACCES, EPERM, EAGAIN, ENOMEM, EBUSY, ENOENT };
 		static const int64_t MODES[] = { 0600, 0640, 0660, 0666, 0700 };
 		for (int k = 0; k < nc; k++) {
@@ -1333,6 +1392,10 @@ static void run(const char *prop, const RunSpec &spec)
 	h.on_path = on_path;
 	h.on_call = on_call;
 	h.on_proc_death = on_proc_death;
+#ifdef IPC_ACC
+	h.on_mmap = on_mmap;
+	c.memcpy_stride_words = 64;
+#endif
 	proc_define(G.server_spid, 0, 0);
 	proc_define(G.hostile_spid, 4242, 4242);
 	for (int k = 0; k < G.nclients; k++) {
@@ -1347,6 +1410,11 @@ static void run(const char *prop, const RunSpec &spec)
 		G.server_will_die = !p.get("kill_who", 1);
 		c.kill_spid = p.get("kill_who", 1) ? G.cl[0].spid : G.server_spid;
 		c.rate_kill = (uint32_t)std::max<int64_t>(0, std::min<int64_t>(5000, p.get("rate_kill")));
+	}
+	for (int k = 0; k < 3; k++) {
+		char key[24];
+		snprintf(key, sizeof key, "plant%d", k); G.plant[k] = (int)(((p.get(key, 0) % 3) + 3) % 3);
+		snprintf(key, sizeof key, "plantf%d", k); G.plantf[k] = (int)(((p.get(key, 0) % 6) + 6) % 6);
 	}
 	// triggers and policies
 	for (size_t i = 0; i < p.ops.size(); i++) {
@@ -1369,7 +1437,12 @@ static void run(const char *prop, const RunSpec &spec)
 	}
 
 	SchedCfg sc;
+#ifdef IPC_ACC
+	sched_cfg_from_seed(spec.seed, 1 + G.nclients + (which == 6 ? 1 : 0), 20000, 250000, sc);
+	if (sc.strategy == ST_RANDOM && sc.p_num > 1966) sc.p_num = 655;      // accesses are far more frequent than calls
+#else
 	sched_cfg_from_seed(spec.seed, 1 + G.nclients + (which == 6 ? 1 : 0), 3000, 60000, sc);
+#endif
 	sc.vtime_cap_ns = 600LL * 1000000000LL;
 	if (p.get("force_seq")) sc.strategy = ST_SEQ;
 	sched_begin(spec, sc);
@@ -1381,9 +1454,31 @@ static void run(const char *prop, const RunSpec &spec)
 		else { G.cl[k].done = true; task_create(base + 90 + k, [](void *) {}, NULL, "idle"); }
 	}
 	if (which == 6) task_create(G.hostile_spid, hostile_main, NULL, "hostile");
+#ifdef IPC_ACC
+	g_access_hook = acc_hook;
+#endif
 	sched_run();
+	g_access_hook = NULL;
 	bool torn = failed();
 	sched_end();
+	if (!torn && which == 5) {
+		for (size_t i = 0; i < G.victims.size() && !failed(); i++) {
+			struct stat st; char buf[64]; memset(buf, 0, sizeof buf);
+			int fd = open(G.victims[i].c_str(), O_RDONLY);
+			ssize_t n = fd >= 0 ? read(fd, buf, sizeof buf) : -1;
+			bool intact = n == 64 && fd >= 0 && fstat(fd, &st) == 0 && (st.st_mode & 0777) == 0600;
+			for (int b = 0; intact && b < 64; b++) if (buf[b] != 'V') intact = false;
+			if (fd >= 0) close(fd);
+			if (!intact) VIOL(5, "planted-link-followed", "qb_sys_mmap_file_open", "a file outside the connection directory, reached through a symbolic link the peer planted there, was truncated / re-moded by the server");
+		}
+	}
+	// what the peer planted is the peer's litter, not the server's
+	for (std::set<std::string>::iterator it = G.planted.begin(); it != G.planted.end(); ++it) {
+		unlink(it->c_str());
+		std::string d = it->substr(0, it->rfind('/'));
+		rmdir(d.c_str());
+	}
+	for (size_t i = 0; i < G.victims.size(); i++) unlink(G.victims[i].c_str());
 	if (!torn && !G.server_dead && (which == 3 || which == 5 || which == 6)) {
 		std::string ex;
 		int n = shm_leftovers(G.server_spid, 0, false, ex);
